@@ -28,3 +28,4 @@ def check(ctx):
     canon.scaling(ctx)
     ctx.floor("TRUNCARGS", 12)
     ctx.floor("CENTER", 8)
+    canon.gauge_moves(ctx)
